@@ -25,6 +25,7 @@ def _install_hit_counter():
     pass as evidence for cache transparency."""
     if getattr(IndexedCache.retrieve, "_verif", False):
         return
+    global _orig_retrieve
 
     def retrieve(self, assignment=None, cache=None, key_idx=0, result=None, from_index=True):
         if cache is None and from_index:
@@ -37,6 +38,72 @@ def _install_hit_counter():
 
 if os.environ.get("EQL_VERIF") == "1":
     _install_hit_counter()
+
+
+class IndexTracer:
+    """Records every top-level insert / retrieve / clear of every IndexedCache (operator result caches) while a case
+    runs, as index-family histories that TraceIndex can judge against the reference store.  Used only to decide
+    whether a rejected query execution is an instance of the known finding on the cache index (call-site scoping)."""
+
+    def __init__(self):
+        self.caches = {}
+        self.orig = (IndexedCache.insert, IndexedCache.retrieve, IndexedCache.clear)
+
+    def _c(self, cache):
+        c = self.caches.get(id(cache))
+        if c is None or c["keys"] != list(cache.keys):
+            c = {"obj": cache, "keys": list(cache.keys), "vals": [dict() for _ in cache.keys], "evs": []}
+            self.caches[id(cache)] = c
+        return c
+
+    def _b(self, c, assignment):
+        b = []
+        for k, key in enumerate(c["keys"]):
+            if assignment and key in assignment:
+                v = assignment[key]
+                vid = getattr(v, "id_", id(v))
+                b.append(c["vals"][k].setdefault(vid, len(c["vals"][k]) + 1))
+            else:
+                b.append(0)
+        return b
+
+    def __enter__(self):
+        tracer = self
+        o_insert, o_retrieve, o_clear = self.orig
+
+        def insert(self, assignment, output, index=True):
+            if index and self.keys:
+                c = tracer._c(self)
+                c["evs"].append({"op": "insert", "b": tracer._b(c, assignment), "o": 2 if output else 1})
+            return o_insert(self, assignment, output, index)
+
+        def retrieve(self, assignment=None, cache=None, key_idx=0, result=None, from_index=True):
+            if cache is not None or not from_index or not self.keys:
+                return o_retrieve(self, assignment, cache, key_idx, result, from_index)
+            c = tracer._c(self)
+            lk = tracer._b(c, assignment)
+            res = list(o_retrieve(self, assignment, cache, key_idx, result, from_index))
+            c["evs"].append({"op": "retrieve", "lk": lk, "res": [[tracer._b(c, r), 2 if v else 1] for r, v in res]})
+            return iter(res)
+
+        def clear(self):
+            if id(self) in tracer.caches:
+                tracer.caches[id(self)]["evs"].append({"op": "clear"})
+            return o_clear(self)
+
+        IndexedCache.insert, IndexedCache.retrieve, IndexedCache.clear = insert, retrieve, clear
+        return self
+
+    def __exit__(self, *a):
+        IndexedCache.insert, IndexedCache.retrieve, IndexedCache.clear = self.orig
+
+    def traces(self):
+        out = []
+        for c in self.caches.values():
+            if any(e["op"] == "retrieve" for e in c["evs"]):
+                nvals = max([len(v) for v in c["vals"]] + [1])
+                out.append({"nkeys": len(c["keys"]), "nvals": nvals, "evs": c["evs"]})
+        return out
 
 
 def reset_library():
@@ -419,6 +486,17 @@ RUNNERS = {"registry": run_registry_case, "query": run_query_case, "index": run_
 
 def run_case(case):
     try:
+        if case.get("_trace_index"):
+            global _orig_retrieve
+            IndexedCache.retrieve = _orig_retrieve          # plain methods while tracing
+            try:
+                with IndexTracer() as tr:
+                    out = RUNNERS[case.get("family", "query")](case)
+                out["index_traces"] = tr.traces()
+            finally:
+                if os.environ.get("EQL_VERIF") == "1":
+                    _install_hit_counter()
+            return out
         return RUNNERS[case.get("family", "query")](case)
     except Exception as e:   # machinery failure, reported as such
         out = dict(case)
